@@ -261,3 +261,58 @@ func leadScripts() []script {
 	_ = strings.Join
 	return out
 }
+
+// boundaryScripts: the fixed handful of boundary inputs random sampling hardly ever hits (class 2):
+// ids shorter than 32 bytes, shares with a leading zero coordinate byte, beacon values of
+// 31/33/63/65 bytes, signature fields of 63/65 bytes, signer ids of 31/33 bytes.
+func boundaryScripts() []script {
+	var out []script
+	mk := func(name, hdrExtra string, n int, prand string, msgs ...string) {
+		lines := []string{header(n, allMembers(n), prand, false) + hdrExtra, "enter"}
+		for _, m := range msgs {
+			lines = append(lines, "m "+m)
+		}
+		out = append(out, script{name: name, lines: lines})
+	}
+	mk("b-lz-ids", " ids=lz", 4, "64", honest(0), honest(1)+" idenc=strip ver=2", honest(3)+" idenc=pad1 ver=2", honest(2))
+	mk("b-lz-ids-byz", " ids=lz", 4, "33", declaredOther(0, "X1"), "signer=1 sig=s.0.H", honest(1), honest(0)+" idenc=strip ver=2", honest(3))
+	mk("b-lz-share", " lz=1", 3, "64", honest(0), "signer=1 sig=s.0.H rand=s.0.R", honest(1))
+	mk("b-lz-share-ids", " lz=1 ids=lz", 5, "31", honest(0), honest(1), honest(4))
+	for _, pr := range []string{"31", "33", "63", "65"} {
+		mk("b-prand-"+pr, "", 3, pr, honest(0), "signer=1 rand=s.1.H", honest(1))
+	}
+	mk("b-sig-sizes", "", 3, "64", "signer=0 sig=s.0.H-1", "signer=0 sig=s.0.H+1 ver=2", "signer=1 rand=s.1.R-1", "signer=1 rand=s.1.R+1 ver=2")
+	mk("b-threshold-100", "", 10, "64", honest(0), honest(1), honest(2), honest(3), honest(4), honest(5), honest(6))
+	return out
+}
+
+// twinScripts: pairs of rounds on the SAME block hash and group inside one process. The primer round
+// verifies every member's share; the twin round then sees the same shares under other senders' ids
+// (and honest traffic). A verification cache keyed without the key/signer accepts them.
+func twinScripts(r *hx.Rng, pairs int) []script {
+	var out []script
+	for p := 0; p < pairs; p++ {
+		n := r.Pick(3, 4, 5, 7)
+		k := groupK(n)
+		tag := fmt.Sprintf(" hashof=twin-%d-%d", p, r.Intn(1<<30))
+		prim := []string{header(n, allMembers(n), "64", false) + tag, "enter"}
+		for i := 0; i < n; i++ {
+			prim = append(prim, "m "+honest(i))
+		}
+		out = append(out, script{name: fmt.Sprintf("primer-%d", p), lines: prim})
+		tw := []string{header(n, allMembers(n), "64", false) + tag + " role=twin", "enter"}
+		for i := 0; i < n && i < k+1; i++ {
+			j := (i + 1) % n
+			if r.Bool() {
+				tw = append(tw, fmt.Sprintf("m signer=%d sig=s.%d.H rand=s.%d.R", i, j, j))
+			} else {
+				tw = append(tw, fmt.Sprintf("m signer=%d sig=s.%d.H", i, j))
+			}
+		}
+		for i := 0; i < n; i++ {
+			tw = append(tw, "m "+honest(i))
+		}
+		out = append(out, script{name: fmt.Sprintf("twin-%d", p), lines: tw})
+	}
+	return out
+}
